@@ -1,4 +1,188 @@
-import CosetModel.Api
+/-
+  C02 — protected-header bytes are kept and reused bit-for-bit, never re-encoded.
+-/
+import CosetProofs.Shapes
+import CosetProofs.HeaderLoop
+import CosetProofs.Props.C03
+import CosetProofs.Props.C04
+import CosetProofs.Props.C05
 namespace Coset.Props.C02
+open Coset Coset.Cbor Coset.Spec
+
+/-- decode retains: whatever `from_cbor_bstr` accepts, it stores exactly the content of the wire byte string —
+    zero-length string, wrapped empty map, non-minimal widths, indefinite lengths, unsorted keys, unknown parameters alike. -/
+theorem decode_retains (fuel d : Nat) (x : Value) (p : ProtectedHeader) (h : ProtectedHeader.fromBstr fuel d x = .ok p) :
+    ∃ data, x = .bytes data ∧ p.originalData = some data := by
+  cases fuel with
+  | zero => simp [ProtectedHeader.fromBstr] at h
+  | succ f =>
+    obtain ⟨data, hx, hc⟩ := (protected_ok_iff f d x p).mp h
+    refine ⟨data, hx, ?_⟩
+    rcases hc with ⟨rfl, rfl⟩ | ⟨_, v, hh, _, _, rfl⟩ <;> rfl
+
+/-- encode reuses: stored bytes are written verbatim (the serializer is not involved). -/
+theorem encode_reuses (data : Bytes) (h : Header) : ProtectedHeader.cborBstr (.mk (some data) h) = .ok (.bytes data) := cborBstr_stored data h
+
+/-- decode then encode: the protected slot of the output is the protected slot of the input (body position of every message type,
+    via the two-header prefix they all share). -/
+theorem slot_roundtrip (x0 : Value) (p : ProtectedHeader) (u : Header) (hp : phFromBstr x0 = .ok p) (vs : List Value)
+    (hs : headerSlots p u = .ok vs) : vs.head? = some x0 := by
+  obtain ⟨data, hx, ho⟩ := decode_retains _ _ x0 p hp
+  cases p with
+  | mk orig hd =>
+    simp only [ProtectedHeader.originalData] at ho; subst ho
+    simp only [headerSlots, cborBstr_stored] at hs
+    cases hu : Header.toValue u with
+    | ok uv => simp [hu] at hs; subst hs; simp [hx]
+    | err e => simp [hu] at hs
+    | panic q => simp [hu] at hs
+
+theorem sign1_slot_roundtrip (v : Value) (m : CoseSign1) (x : Value) (hd : CoseSign1.fromValue v = .ok m) (he : m.toValue = .ok x) :
+    ∃ a b, v = .array a ∧ x = .array b ∧ b.head? = a.head? := by
+  obtain ⟨x0, x1, x2, rfl, h0, _, _⟩ := (sign1_ok_iff v m).mp hd
+  simp only [CoseSign1.toValue] at he
+  cases hs : headerSlots m.protected_ m.unprotected with
+  | ok vs =>
+    simp [hs] at he; subst he
+    have := slot_roundtrip x0 _ _ h0 vs hs
+    refine ⟨_, _, rfl, rfl, ?_⟩
+    cases vs <;> simp_all
+  | err e => simp [hs] at he
+  | panic q => simp [hs] at he
+
+/-- every signer of a decoded COSE_Sign retains its own protected bytes. -/
+theorem signers_retain (sigs : List Value) (ss : List CoseSignature)
+    (h : mapRes (fun s => (sigFromValue s).mapErr .unexpectedItem) sigs = .ok ss) :
+    ∀ s ∈ ss, ∃ data, s.protected_.originalData = some data := by
+  induction sigs generalizing ss with
+  | nil => simp [mapRes] at h; subst h; simp
+  | cons x xs ih =>
+    rw [mapRes_cons_ok] at h
+    obtain ⟨y, ys, hy, hys, rfl⟩ := h
+    intro s hs
+    rcases List.mem_cons.mp hs with rfl | hs'
+    · cases hx : sigFromValue x with
+      | ok s0 =>
+        simp [hx, Res.mapErr] at hy; subst hy
+        simp only [sigFromValue, topFuel] at hx
+        obtain ⟨x0, x1, _, hp, _⟩ := (signature_ok_iff _ _ x s0).mp hx
+        obtain ⟨data, _, ho⟩ := decode_retains _ _ x0 _ hp
+        exact ⟨data, ho⟩
+      | err e => simp [hx, Res.mapErr] at hy
+      | panic q => simp [hx, Res.mapErr] at hy
+    · exact ih ys hys s hs'
+
+/-- counter signatures, at any depth and inside protected or unprotected headers, retain theirs (one decoder serves all positions). -/
+theorem counter_signatures_retain (fuel d : Nat) (v : Value) (s : CoseSignature) (h : CoseSignature.fromValue fuel d v = .ok s) :
+    ∃ data, s.protected_.originalData = some data := by
+  cases fuel with
+  | zero => simp [CoseSignature.fromValue] at h
+  | succ f =>
+    obtain ⟨x0, x1, _, hp, _⟩ := (signature_ok_iff f d v s).mp h
+    obtain ⟨data, _, ho⟩ := decode_retains _ _ x0 _ hp
+    exact ⟨data, ho⟩
+
+/-- KDF supplementary public info retains its protected bytes. -/
+theorem supp_pub_info_retains (v : Value) (s : SuppPubInfo) (h : SuppPubInfo.fromValue v = .ok s) :
+    ∃ data, s.protected_.originalData = some data := by
+  cases v with
+  | array a =>
+    simp only [SuppPubInfo.fromValue, tryAsArray, Gen.SuppPubInfo_arityBad] at h
+    by_cases h2 : a.length = 2
+    · obtain ⟨x0, x1, rfl⟩ := list_len2 a h2
+      simp [Gen.SuppPubInfo_removes, vremove] at h
+      cases hp : phFromBstr x1 with
+      | ok p =>
+        simp [hp] at h
+        cases hi : tryAsInteger x0 with
+        | ok n =>
+          simp [hi] at h
+          cases hn : narrowU64 n with
+          | ok len => simp [hn] at h; subst h; obtain ⟨data, _, ho⟩ := decode_retains _ _ x1 p hp; exact ⟨data, ho⟩
+          | err e => simp [hn] at h
+          | panic q => simp [hn] at h
+        | err e => simp [hi] at h
+        | panic q => simp [hi] at h
+      | err e => simp [hp] at h
+      | panic q => simp [hp] at h
+    · by_cases h3 : a.length = 3
+      · obtain ⟨x0, x1, x2, rfl⟩ := list_len3 a h3
+        simp [Gen.SuppPubInfo_removes, vremove] at h
+        cases hb : tryAsBytes x2 with
+        | ok o =>
+          simp [hb] at h
+          cases hp : phFromBstr x1 with
+          | ok p =>
+            simp [hp] at h
+            cases hi : tryAsInteger x0 with
+            | ok n =>
+              simp [hi] at h
+              cases hn : narrowU64 n with
+              | ok len => simp [hn] at h; subst h; obtain ⟨data, _, ho⟩ := decode_retains _ _ x1 p hp; exact ⟨data, ho⟩
+              | err e => simp [hn] at h
+              | panic q => simp [hn] at h
+            | err e => simp [hi] at h
+            | panic q => simp [hi] at h
+          | err e => simp [hp] at h
+          | panic q => simp [hp] at h
+        | err e => simp [hb] at h
+        | panic q => simp [hb] at h
+      · have : (a.length != 2 && a.length != 3) = true := by simp [h2, h3]
+        simp [this] at h
+  | _ => simp [SuppPubInfo.fromValue, tryAsArray, typeError] at h
+
+/-- the structures carry the stored bytes, not a re-encoding of the parsed header — for whatever header was parsed from them. -/
+theorem structures_use_stored (data aad payload : Bytes) (h : Header) :
+    sigStructureData .coseSign1 (.mk (some data) h) none aad payload = .ok (specStruct ctxSignature1 [data, aad, payload]) ∧
+    macStructureData .coseMac0 (.mk (some data) h) aad payload = .ok (specStruct ctxMAC0 [data, aad, payload]) ∧
+    encStructureData .coseEncrypt0 (.mk (some data) h) aad = .ok (specStruct ctxEncrypt0 [data, aad]) := by
+  refine ⟨?_, ?_, ?_⟩
+  · simpa [C03.contexts.2.1] using (C03.sig_structure .coseSign1 _ aad payload data (cborBstr_stored data h)).1
+  · simpa [C04.contexts.2] using C04.mac_structure .coseMac0 _ aad payload data (cborBstr_stored data h)
+  · simpa [C05.contexts.2.1] using C05.enc_structure .coseEncrypt0 _ aad data (cborBstr_stored data h)
+
+/-- the signer's slot of a COSE_Sign structure is the *signer's* stored bytes. -/
+theorem signer_slot_uses_stored (m : CoseSign) (b s aad : Bytes) (hb : Header) (hs : Header) (u : Header) (sg : Bytes)
+    (hm : m.protected_ = .mk (some b) hb) :
+    m.tbsData aad (.mk (.mk (some s) hs) u sg) = .ok (specStruct ctxSignature [b, s, aad, m.payload.getD []]) := by
+  apply C03.sign_tbs
+  · rw [hm]; exact cborBstr_stored b hb
+  · exact cborBstr_stored s hs
+
+/-- the parsed view is the same for every encoding of the same header content (it is a function of the parsed value);
+    only the retained bytes differ. -/
+theorem view_encoding_independent (fuel d : Nat) (d1 d2 : Bytes) (v : Value) (p1 p2 : ProtectedHeader) (h1 : d1 ≠ []) (h2 : d2 ≠ [])
+    (r1 : readToValue d1 = .ok v) (r2 : readToValue d2 = .ok v)
+    (e1 : ProtectedHeader.fromBstr (fuel + 1) d (.bytes d1) = .ok p1) (e2 : ProtectedHeader.fromBstr (fuel + 1) d (.bytes d2) = .ok p2) :
+    p1.header = p2.header ∧ p1.originalData = some d1 ∧ p2.originalData = some d2 := by
+  obtain ⟨x1, hx1, c1⟩ := (protected_ok_iff fuel d _ p1).mp e1
+  obtain ⟨x2, hx2, c2⟩ := (protected_ok_iff fuel d _ p2).mp e2
+  simp at hx1 hx2; subst hx1; subst hx2
+  rcases c1 with ⟨rfl, _⟩ | ⟨_, v1, hh1, rr1, hf1, rfl⟩
+  · exact absurd rfl h1
+  · rcases c2 with ⟨rfl, _⟩ | ⟨_, v2, hh2, rr2, hf2, rfl⟩
+    · exact absurd rfl h2
+    · rw [r1] at rr1; rw [r2] at rr2
+      simp at rr1 rr2; subst rr1; subst rr2
+      rw [hf1] at hf2; simp at hf2; subst hf2
+      exact ⟨rfl, rfl, rfl⟩
+
+/-- zero-length string and wrapped empty map both give the default header (and keep their own bytes). -/
+example : (phFromBstr (.bytes [])).isOk = true ∧ (phFromBstr (.bytes [0xa0])).isOk = true := by decide +kernel
+
+/-- non-vacuity: a non-canonical protected header (`a2 04 41 01 01 26`: keys unsorted) at the body of a COSE_Sign1 is accepted,
+    and its to-be-signed bytes carry those six bytes. -/
+example : (fromSlice CoseSign1.fromValue [0x84, 0x46, 0xa2, 0x04, 0x41, 0x01, 0x01, 0x26, 0xa0, 0xf6, 0x40]).isOk = true := by decide +kernel
+
+#print axioms decode_retains
+#print axioms encode_reuses
+#print axioms slot_roundtrip
+#print axioms sign1_slot_roundtrip
+#print axioms signers_retain
+#print axioms counter_signatures_retain
+#print axioms supp_pub_info_retains
+#print axioms structures_use_stored
+#print axioms signer_slot_uses_stored
+#print axioms view_encoding_independent
 
 end Coset.Props.C02
